@@ -46,10 +46,10 @@ func (c *Ctx) Choose(n int, label string) int {
 }
 
 type Stats struct {
-	Executions  int
+	Executions   int
 	ChoicePoints int
-	MaxDepth    int
-	Capped      bool
+	MaxDepth     int
+	Capped       bool
 }
 
 type Options struct {
